@@ -49,7 +49,33 @@ func (w *writer) Write(p []byte) (int, error) {
 	return w.buf.Write(p)
 }
 
+// flushWriter is a streamed response: it also implements http.Flusher. Every call on it is attributed to the render
+// that owns it: a Flush that arrives after that render has returned (from a pooled buffer that still points at
+// this writer) is another render reaching into this one.
+type flushWriter struct {
+	writer
+	name   string
+	closed bool
+}
+
+var (
+	lateMu    sync.Mutex
+	lateFlush string
+)
+
+func (w *flushWriter) Flush() {
+	vsched.Yield("flush")
+	if w.closed {
+		lateMu.Lock()
+		lateFlush = fmt.Sprintf("the writer of render %q was flushed after its render had returned", w.name)
+		lateMu.Unlock()
+		return
+	}
+	w.buf.WriteString("\x00F")
+}
+
 type job struct {
+	stream  bool // rendered into a writer that implements http.Flusher
 	name    string
 	mk      func() templ.Component
 	failAt  int
@@ -100,29 +126,32 @@ func failingAfter(text string) templ.Component {
 
 func jobs() map[string]job {
 	return map[string]job{
-		"pageA":         {"pageA", func() templ.Component { return Page("alice", []string{"a1", "a2"}) }, -1, false, false, false},
-		"pageB":         {"pageB", func() templ.Component { return Page("bob", []string{"b1"}) }, -1, false, false, false},
-		"bigA":          {"bigA", func() templ.Component { return Big("AAAA") }, -1, false, false, false},
-		"bigB":          {"bigB", func() templ.Component { return Big("BBBB") }, -1, false, false, false},
-		"smallA":        {"smallA", func() templ.Component { return Small("a") }, -1, false, false, false},
-		"smallB":        {"smallB", func() templ.Component { return Small("b") }, -1, false, false, false},
+		"pageA":         {false, "pageA", func() templ.Component { return Page("alice", []string{"a1", "a2"}) }, -1, false, false, false},
+		"pageB":         {false, "pageB", func() templ.Component { return Page("bob", []string{"b1"}) }, -1, false, false, false},
+		"bigA":          {false, "bigA", func() templ.Component { return Big("AAAA") }, -1, false, false, false},
+		"bigB":          {false, "bigB", func() templ.Component { return Big("BBBB") }, -1, false, false, false},
+		"smallA":        {false, "smallA", func() templ.Component { return Small("a") }, -1, false, false, false},
+		"smallB":        {false, "smallB", func() templ.Component { return Small("b") }, -1, false, false, false},
 		"handlerOK":     {name: "handlerOK", mk: func() templ.Component { return Big("AAAA") }, failAt: -1, handler: true},
 		"handlerFail":   {name: "handlerFail", mk: func() templ.Component { return failingAfter(strings.Repeat("BBBB-", 60)) }, failAt: -1, handler: true},
 		"handlerFailEH": {name: "handlerFailEH", mk: func() templ.Component { return failingAfter(strings.Repeat("CCCC-", 60)) }, failAt: -1, handler: true, eh: true},
 		"mwA":           {name: "mwA", failAt: -1, mw: true, mk: func() templ.Component { return nil }},
 		"mwB":           {name: "mwB", failAt: -1, mw: true, mk: func() templ.Component { return nil }},
-		"otherA":        {"otherA", func() templ.Component { return Other("from-the-second-file") }, -1, false, false, false},
-		"spreadA":       {"spreadA", func() templ.Component { return Spread("alice@example.com") }, -1, false, false, false},
-		"spreadB":       {"spreadB", func() templ.Component { return Spread("bob") }, -1, false, false, false},
+		"otherA":        {false, "otherA", func() templ.Component { return Other("from-the-second-file") }, -1, false, false, false},
+		"spreadA":       {false, "spreadA", func() templ.Component { return Spread("alice@example.com") }, -1, false, false, false},
+		"spreadB":       {false, "spreadB", func() templ.Component { return Spread("bob") }, -1, false, false, false},
 		// the same sanitisers with an accepted and a rejected value side by side
-		"kitchenA": {"kitchenA", func() templ.Component {
+		"kitchenA": {false, "kitchenA", func() templ.Component {
 			return Kitchen("red", "https://example.com/a", "serif", templ.Attributes{"data-x": "1", "data-y": "alice"})
 		}, -1, false, false, false},
-		"kitchenB": {"kitchenB", func() templ.Component {
+		"kitchenB": {false, "kitchenB", func() templ.Component {
 			return Kitchen("x}*{color:x", "data:text/html,<script>alert(1)</script>", "x}*{color:x, serif", templ.Attributes{"data-x": "2"})
 		}, -1, false, false, false},
-		"bigFail":  {"bigFail", func() templ.Component { return Big("FFFF") }, 40, false, false, false},
-		"pageFail": {"pageFail", func() templ.Component { return Page("carol", []string{"c1"}) }, 70, false, false, false},
+		// streamed responses (flushable writers) next to plain ones
+		"streamA":  {name: "streamA", mk: func() templ.Component { return Page("alice", []string{"a1"}) }, failAt: -1, stream: true},
+		"streamB":  {name: "streamB", mk: func() templ.Component { return Small("b") }, failAt: -1, stream: true},
+		"bigFail":  {false, "bigFail", func() templ.Component { return Big("FFFF") }, 40, false, false, false},
+		"pageFail": {false, "pageFail", func() templ.Component { return Page("carol", []string{"c1"}) }, 70, false, false, false},
 	}
 }
 
@@ -154,9 +183,18 @@ func renderOne(j job) outcome {
 		templ.Handler(j.mk(), opts...).ServeHTTP(w, httptest.NewRequest("GET", "/", nil))
 		return outcome{out: fmt.Sprintf("%d|%s", w.status, w.body.String())}
 	}
-	w := &writer{failAt: j.failAt}
-	err := j.mk().Render(context.Background(), w)
-	o := outcome{out: w.buf.String()}
+	var err error
+	var o outcome
+	if j.stream {
+		w := &flushWriter{writer: writer{failAt: j.failAt}, name: j.name}
+		err = j.mk().Render(context.Background(), w)
+		w.closed = true
+		o = outcome{out: w.buf.String()}
+	} else {
+		w := &writer{failAt: j.failAt}
+		err = j.mk().Render(context.Background(), w)
+		o = outcome{out: w.buf.String()}
+	}
 	if err != nil {
 		o.err = "error"
 		if !errors.Is(err, errWriter) {
@@ -179,6 +217,7 @@ func (sc scenario) build(ref map[string]outcome) func() (func(), func(*vsched.Ex
 		done := make([]int, len(sc.threads))
 		body := func() {
 			templruntime.VerifResetWatchCache()
+			lateFlush = ""
 			for t := range sc.threads {
 				t := t
 				vsched.GoNamed(fmt.Sprintf("renderer%d", t), func() {
@@ -189,6 +228,10 @@ func (sc scenario) build(ref map[string]outcome) func() (func(), func(*vsched.Ex
 				})
 			}
 			vsched.Quiesce("all rendered")
+			if lateFlush != "" {
+				msg = "NOT-ISOLATED " + lateFlush
+				return
+			}
 			for t := range sc.threads {
 				if done[t] != len(sc.threads[t]) {
 					msg = fmt.Sprintf("STUCK renderer %d finished %d of %d renders", t, done[t], len(sc.threads[t]))
@@ -238,7 +281,7 @@ func devModeReady() bool { return templruntime.VerifDevMode() }
 
 func raceMode(ref map[string]outcome) {
 	all := jobs()
-	names := []string{"pageA", "pageB", "bigA", "bigB", "smallA", "smallB", "bigFail", "pageFail", "spreadA", "spreadB", "kitchenA", "kitchenB", "kitchenB", "kitchenA", "otherA", "smallA", "otherA", "handlerOK", "handlerFail", "mwA", "mwB", "mwA", "handlerFailEH", "handlerOK"}
+	names := []string{"streamA", "smallB", "streamB", "pageA", "pageB", "bigA", "bigB", "smallA", "smallB", "bigFail", "pageFail", "spreadA", "spreadB", "kitchenA", "kitchenB", "kitchenB", "kitchenA", "otherA", "smallA", "otherA", "handlerOK", "handlerFail", "mwA", "mwB", "mwA", "handlerFailEH", "handlerOK"}
 	var wg sync.WaitGroup
 	var mu sync.Mutex
 	mismatch := ""
@@ -258,6 +301,9 @@ func raceMode(ref map[string]outcome) {
 		}(g)
 	}
 	wg.Wait()
+	if lateFlush != "" && mismatch == "" {
+		mismatch = lateFlush
+	}
 	// first use of a fresh once handle by several goroutines at the same moment (a handle that sets itself up lazily
 	// is set up by all of them at once): in each goroutine's own context the block appears exactly once
 	const rounds = 3000
@@ -349,6 +395,7 @@ func main() {
 		{"2 requests through the buffered HTTP handler, one of them failing, slow clients", [][]string{{"handlerOK"}, {"handlerFail", "handlerOK"}}},
 		{"3 requests through the buffered HTTP handler, the first fails into a custom error handler, then two overlap", [][]string{{"handlerFailEH", "handlerOK"}, {"handlerOK"}}},
 		{"3 requests through one shared CSS middleware (registered class, inline class, script template)", [][]string{{"mwA", "mwB"}, {"mwB"}}},
+		{"streamed renders (flushable writers) and plain renders sharing the buffer pool", [][]string{{"streamA", "smallB"}, {"pageB", "streamB"}}},
 	}
 	if dev {
 		scenarios = []scenario{
